@@ -66,24 +66,28 @@ type World struct {
 	Wfd     int
 	Sh      *Shadow
 	M       *Model
+	R       *RModel // recursive mode (C19)
 
 	held    map[int]int
 	sentN   int
 	plugged bool
 
-	pending   []Ev // expected since last sync
-	opsInSeg  int  // fs ops since last sync
-	segBurst  bool // segment had >1 op or a plug: kernel merging possible
-	step      int
-	Findings  []Finding
-	Errs      []error
-	Segments  []Segment // kept for samples and reports
-	StepErrs  []string  // errno of each executed step ("" = ok)
-	Delivered int
-	ReadSizes []int // number of notifications decoded per burst (lower bound: ops in plugged segments)
-	closed    bool
-	oldCwd    string
-	mounts    []string
+	pending                []Ev // expected since last sync
+	opsInSeg               int  // fs ops since last sync
+	segBurst               bool // segment had >1 op or a plug: kernel merging possible
+	step                   int
+	Findings               []Finding
+	Errs                   []error
+	Segments               []Segment // kept for samples and reports
+	StepErrs               []string  // errno of each executed step ("" = ok)
+	Delivered              int
+	ReadSizes              []int // number of notifications decoded per burst (lower bound: ops in plugged segments)
+	closed                 bool
+	recurseOld, recurseSet bool
+	absorbing              bool
+	others                 []*fsnotify.Watcher
+	oldCwd                 string
+	mounts                 []string
 	// feature counters
 	Feat map[string]int
 }
@@ -129,6 +133,11 @@ func NewWorld(c *Case) (w *World, err error) {
 		return
 	}
 	w.M = NewModel(w.Sh)
+	if c.Recurse {
+		w.R = NewRModel(w.Sh)
+		w.recurseOld = fsnotify.VerifSetRecurse(true)
+		w.recurseSet = true
+	}
 	if c.Buf < 0 {
 		w.W, err = fsnotify.NewWatcher()
 	} else {
@@ -161,6 +170,9 @@ func (w *World) Destroy() {
 	for i := len(w.mounts) - 1; i >= 0; i-- {
 		unix.Unmount(w.mounts[i], unix.MNT_DETACH)
 	}
+	for _, x := range w.others {
+		x.Close()
+	}
 	if w.W != nil {
 		done := make(chan struct{})
 		go func() { w.W.Close(); close(done) }()
@@ -185,6 +197,9 @@ func (w *World) Destroy() {
 	}
 	if w.Sh != nil {
 		w.Sh.Close()
+	}
+	if w.recurseSet {
+		fsnotify.VerifSetRecurse(w.recurseOld)
 	}
 	if w.oldCwd != "" {
 		os.Chdir(w.oldCwd)
@@ -313,8 +328,105 @@ func (w *World) FsOp(s Step) error {
 		w.segBurst = true
 	}
 	raws := w.Sh.Drain()
-	w.pending = append(w.pending, w.M.Feed(raws)...)
+	if w.R != nil {
+		w.pending = append(w.pending, w.R.Feed(raws)...)
+	} else {
+		w.pending = append(w.pending, w.M.Feed(raws)...)
+	}
+	if w.absorbing {
+		if len(w.pending) > cap(w.W.Events) {
+			// more than the buffer can absorb: the reader will park in a send;
+			// this becomes an ordinary free-running burst
+			w.absorbing = false
+			w.segBurst = true
+		} else {
+			w.waitKernelEmpty() // no merging across ops: the reader has taken everything out
+		}
+	}
 	return err
+}
+
+// other Watchers (C14) -------------------------------------------------------
+
+func (w *World) XNew(capacity int) {
+	var x *fsnotify.Watcher
+	var err error
+	if capacity < 0 {
+		x, err = fsnotify.NewWatcher()
+	} else {
+		x, err = fsnotify.NewBufferedWatcher(uint(capacity))
+	}
+	if err != nil {
+		inconclusive("creating another Watcher: %v", err)
+	}
+	want := capacity
+	if want < 0 {
+		want = fsnotify.VerifDefaultBufferSize()
+	}
+	if cap(x.Events) != want {
+		w.find(FCap, "cap(Events)=%d, requested %d", cap(x.Events), want)
+	}
+	w.others = append(w.others, x)
+	go func() { // somebody else's consumer
+		for range x.Events {
+		}
+	}()
+	go func() {
+		for range x.Errors {
+		}
+	}()
+	w.Feat["other-watchers"]++
+}
+
+func (w *World) other(i int) *fsnotify.Watcher {
+	if len(w.others) == 0 {
+		return nil
+	}
+	return w.others[i%len(w.others)]
+}
+
+// Absorb starts a segment in which nobody receives from Events.
+func (w *World) Absorb() {
+	w.absorbing = true
+	w.Feat["absorb-segments"]++
+}
+
+// SyncAbsorb ends an absorb segment: the buffered channel must hold exactly
+// the expected events, in order, with no consumer having been present.
+func (w *World) SyncAbsorb() {
+	w.absorbing = false
+	exp := w.pending
+	w.pending = nil
+	if len(exp) > cap(w.W.Events) {
+		// not an absorb case after all; fall back to the ordinary protocol
+		w.pending = exp
+		w.segBurst = true
+		w.Sync(nil)
+		return
+	}
+	deadline := time.Now().Add(SyncTimeout)
+	for len(w.W.Events) < len(exp) {
+		time.Sleep(50 * time.Microsecond)
+		if time.Now().After(deadline) {
+			w.wedge(fmt.Sprintf("buffer of capacity %d holds %d events, %d expected, nobody receiving", cap(w.W.Events), len(w.W.Events), len(exp)))
+			return
+		}
+	}
+	var got []Ev
+	for i := 0; i < len(exp); i++ {
+		select {
+		case ev := <-w.W.Events:
+			w.take(ev, &got, "")
+		default:
+		}
+	}
+	seg := Segment{Burst: false, Ops: w.opsInSeg, Expected: exp, Delivered: got}
+	w.Segments = append(w.Segments, seg)
+	w.opsInSeg = 0
+	w.segBurst = false
+	w.compare(seg)
+	// anything further must not exist: the ordinary sync checks that
+	w.Sync(nil)
 }
 
 func (w *World) sentinelName() string {
@@ -454,7 +566,7 @@ loop:
 	}
 	w.opsInSeg = 0
 	w.segBurst = false
-	if w.M.Overflow {
+	if w.M.Overflow || (w.R != nil && w.R.Overflow) {
 		inconclusive("shadow queue overflowed; burst too large for the exact oracle")
 	}
 	w.compare(seg)
@@ -463,40 +575,70 @@ loop:
 // wedge inspects the process instead of guessing why the sentinel is late.
 func (w *World) wedge(what string) {
 	n, _ := Fionread(w.Wfd)
-	gs := FsnotifyGoroutines()
-	var reader string
-	for _, g := range gs {
-		if strings.Contains(g, "readEvents") {
-			reader = g
-		}
-	}
-	state := "reader goroutine missing"
-	if reader != "" {
-		state = strings.SplitN(reader, "\n", 2)[0]
-	}
-	detail := fmt.Sprintf("%s after %v: FIONREAD=%d len(Events)=%d %s", what, SyncTimeout, n, len(w.W.Events), state)
-	switch {
-	case reader == "":
-		w.find(FWedge, "%s; reader gone but channels open", detail)
-	case n == 0 && len(w.W.Events) == 0 && (strings.Contains(reader, "IO wait") || strings.Contains(reader, "poll.")):
-		w.find(FWedge, "%s; everything consumed, sentinel lost\n%s", detail, reader)
-	case strings.Contains(reader, "chan send") || strings.Contains(reader, "select") || strings.Contains(reader, "sync.Mutex") || strings.Contains(reader, "semacquire"):
-		// confirm it does not move
-		time.Sleep(time.Second)
-		again := ""
+	readers := func() map[string]string { // goroutine id -> stack, for every reader loop in the process
+		m := map[string]string{}
 		for _, g := range FsnotifyGoroutines() {
 			if strings.Contains(g, "readEvents") {
-				again = g
+				if h := goHeader.FindStringSubmatch(g); h != nil {
+					m[h[1]] = g
+				}
 			}
 		}
-		if again != "" && strings.SplitN(again, "\n", 2)[0][:12] == state[:12] {
-			w.find(FWedge, "%s; reader blocked while the harness is receiving\n%s", detail, again)
-			return
-		}
-		inconclusive("%s", detail)
-	default:
-		inconclusive("%s\n%s", detail, reader)
+		return m
 	}
+	state := func(g string) string {
+		if h := goHeader.FindStringSubmatch(g); h != nil {
+			return h[2]
+		}
+		return "?"
+	}
+	r1 := readers()
+	detail := fmt.Sprintf("%s after %v: FIONREAD=%d len(Events)=%d cap=%d, %d reader goroutine(s) in the process (%d other Watchers)", what, SyncTimeout, n, len(w.W.Events), cap(w.W.Events), len(r1), len(w.others))
+	if len(r1) == 0 {
+		w.find(FWedge, "%s; reader gone but channels open", detail)
+		return
+	}
+	idle := 0
+	for _, g := range r1 {
+		if state(g) == "IO wait" {
+			idle++
+		}
+	}
+	if idle == len(r1) && n == 0 && len(w.W.Events) == 0 {
+		w.find(FWedge, "%s; everything consumed and every reader is waiting for the kernel: the sentinel was lost", detail)
+		return
+	}
+	if idle == len(r1) && n > 0 && len(w.others) == 0 {
+		// data is queued but the only reader sleeps in poll: confirm it stays so
+		time.Sleep(time.Second)
+		n2, _ := Fionread(w.Wfd)
+		r2 := readers()
+		if n2 == n && len(r2) == 1 {
+			for id, g := range r2 {
+				if _, same := r1[id]; same && state(g) == "IO wait" {
+					w.find(FWedge, "%s; the reader sleeps although the kernel queue is not empty\n%s", detail, g)
+					return
+				}
+			}
+		}
+	}
+	// a reader stuck in a blocking state across two dumps while the harness is receiving
+	time.Sleep(time.Second)
+	r2 := readers()
+	for id, g := range r2 {
+		st := state(g)
+		if old, ok := r1[id]; ok && state(old) == st && blockingState(st) {
+			if len(w.others) == 0 || strings.Contains(g, "handleEvent") || strings.Contains(g, "sync.(*Mutex)") {
+				w.find(FWedge, "%s; reader blocked while the harness is receiving\n%s", detail, g)
+				return
+			}
+		}
+	}
+	var all []string
+	for _, g := range r2 {
+		all = append(all, g)
+	}
+	inconclusive("%s\n%s", detail, strings.Join(all, "\n\n"))
 }
 
 // normalizeBurst applies the run-length rule: a maximal run of n identical
@@ -706,6 +848,56 @@ func (w *World) Remove(p string) {
 	}
 }
 
+// RAdd adds a recursive watch on root.
+func (w *World) RAdd(root string) {
+	c := filepath.Clean(root)
+	werr, panicked := w.call(fmt.Sprintf("Add(%q)", root+"/..."), func() error { return w.W.Add(root + "/...") })
+	w.StepErrs = append(w.StepErrs, errstr(werr))
+	if panicked {
+		return
+	}
+	fi, serr := os.Stat(c)
+	ok := serr == nil && fi.IsDir()
+	if ok != (werr == nil) {
+		w.find(FAddErr, "Add(%q): directory exists=%v, Watcher.Add returned %v", root+"/...", ok, werr)
+		return
+	}
+	if !ok {
+		return
+	}
+	if err := w.R.AddTree(c); err != nil {
+		inconclusive("shadow tree add: %v", err)
+	}
+	w.Feat["recursive-roots"]++
+}
+
+// RRemove removes the recursive watch on root.
+func (w *World) RRemove(root string) {
+	c := filepath.Clean(root)
+	werr, panicked := w.call(fmt.Sprintf("Remove(%q)", root+"/..."), func() error { return w.W.Remove(root + "/...") })
+	w.StepErrs = append(w.StepErrs, errstr(werr))
+	if panicked {
+		return
+	}
+	listed := false
+	for _, d := range w.R.Dirs {
+		if d.Root == c && d.Path == c {
+			listed = true
+		}
+	}
+	if listed {
+		if werr != nil {
+			w.find(FRmErr, "Remove(%q) of a recursive root returned %v", root+"/...", werr)
+		}
+		w.R.RemoveTree(c)
+		w.Feat["recursive-root-removed"]++
+		return
+	}
+	if !errors.Is(werr, fsnotify.ErrNonExistentWatch) {
+		w.find(FRmErr, "Remove(%q) of an unlisted root returned %v", root+"/...", werr)
+	}
+}
+
 // List compares WatchList with the model.
 func (w *World) List() {
 	var got []string
@@ -775,13 +967,48 @@ func Run(c *Case) (w *World) {
 		}
 		switch {
 		case IsFsOp(s.K):
+			if c.Recurse && (s.K == KMkdir || s.K == KRename || s.K == KRmdir) {
+				// recursive mode quantifies over directories created/moved one
+				// level at a time, each followed by delivery of its events
+				if !synced {
+					w.Sync(polled)
+					polled = nil
+					if w.Failed() {
+						break
+					}
+				}
+				w.FsOp(s)
+				w.Sync(nil)
+				synced = true
+				break
+			}
 			w.FsOp(s)
 			synced = false
 		case s.K == KSync:
 			w.StepErrs = append(w.StepErrs, "")
-			w.Sync(polled)
+			if w.absorbing {
+				w.SyncAbsorb()
+			} else {
+				w.Sync(polled)
+			}
 			polled = nil
 			synced = true
+		case s.K == KXNew:
+			w.StepErrs = append(w.StepErrs, "")
+			w.XNew(s.N)
+		case s.K == KXAdd || s.K == KXRemove || s.K == KXClose:
+			var err error
+			if x := w.other(s.N); x != nil {
+				switch s.K {
+				case KXAdd:
+					err = x.Add(string(s.P))
+				case KXRemove:
+					err = x.Remove(string(s.P))
+				default:
+					err = x.Close()
+				}
+			}
+			w.StepErrs = append(w.StepErrs, errstr(err))
 		case s.K == KPlug:
 			w.StepErrs = append(w.StepErrs, "")
 			if !synced {
@@ -796,7 +1023,7 @@ func Run(c *Case) (w *World) {
 			synced = false
 		case s.K == KPoll:
 			w.StepErrs = append(w.StepErrs, "")
-			if !w.plugged {
+			if !w.plugged && !w.absorbing {
 				w.Poll(s.N, &polled)
 			}
 		default: // API calls and checks happen at quiescent points only
@@ -809,6 +1036,15 @@ func Run(c *Case) (w *World) {
 				}
 			}
 			switch s.K {
+			case KAbsorb:
+				w.StepErrs = append(w.StepErrs, "")
+				if cap(w.W.Events) > 0 {
+					w.Absorb()
+				}
+			case KRAdd:
+				w.RAdd(string(s.P))
+			case KRRemove:
+				w.RRemove(string(s.P))
 			case KAdd:
 				w.Add(string(s.P))
 			case KRemove:
@@ -826,7 +1062,11 @@ func Run(c *Case) (w *World) {
 	}
 	if !w.Failed() && !synced && !w.closed {
 		w.step = len(c.Steps)
-		w.Sync(polled)
+		if w.absorbing {
+			w.SyncAbsorb()
+		} else {
+			w.Sync(polled)
+		}
 	}
 	return w
 }
